@@ -19,9 +19,19 @@ TRUSTED = [
     "sides) and of Scheduler.commutation_rules on pairs of placed library gates",
     "CPython iterates a set of distinct ints < 8 in ascending order (exact tie only; theorems quantify over all orders)",
     "sched_sem is proved for an ABSTRACT gate action `act`: (H1) gates on disjoint qubits commute, (H2) gates declared "
-    "commuting by the commutation predicate commute.  H1/H2 for the real gate matrices and the library's "
-    "commutation_rules are NOT proved here (matrix foundation); the harness checks them numerically: commutator sweep "
-    "over all pairs of placed library gates on 3 qubits and unitary comparison of every scheduled circuit",
+    "commuting by the commutation predicate commute.  H1/H2 are PROVED (Proofs/SchedReal.v, Found/Shift.v: real_H1, real_H2, "
+    "sched_sem_unitary) for the matrices of Gen/Gates.v (`dispatch`, and `class_mat` via `class_map` for the names without "
+    "a dispatch entry: H, iSWAP, SWAPALPHA, MS, CX, RZX; translator tools/translate/gates_tr.py, regenerated on every run, "
+    "see C09) embedded by Found.Base.app on controls ++ targets, in every phase ring, for all parameter values "
+    "(independent values for the two gates), with the fixed commutation_rules; trusted there: the hand-written arity table "
+    "name -> (#controls, #targets, #parameters) of SchedReal.v (proved to cover every name of dispatch and class_map), an "
+    "instruction that is ill-formed for its name (unknown name, wrong number of controls/targets, repeated qubit, a gate "
+    "with >= 2 parameters carrying another number of arguments) acts as the identity, argument lists are identified up to "
+    "equality of rationals; Instruction's SORTED target/control lists give the gate's unitary because every two-target / "
+    "two-control matrix is invariant under exchanging them (act_real_target_order / act_real_control_order, proved) except "
+    "RZX, for which act_real is the gate's unitary only when the targets are ascending.  The harness additionally checks "
+    "H2 numerically: commutator sweep over all pairs of placed library gates on 3 qubits and unitary comparison of every "
+    "scheduled circuit",
     "generate_dependency_graph modelled qubit by qubit (loop interchange); gate attributes as in C11",
     "the model describes /repo with fixes/C05-commutation-rules.diff applied (shipped rules = commutation_rules_orig)",
 ]
@@ -29,6 +39,12 @@ ASSUMES = [
     "every gate uses at least one qubit (a list of GLOBALPHASE gates only raises ValueError in the shipped code)",
     "hardware constraint = default qubit_constraint",
 ]
+
+
+def generate(ctx):
+    """Props/C05.v instantiates sched_sem at the real gate matrices of Gen/Gates.v (regenerated here)."""
+    from translate import gates_tr
+    gates_tr.generate()
 
 
 # --------------------------------------------------------------------------------------------------
